@@ -75,6 +75,7 @@ int main(int argc, char** argv) {
   // part 2: prefill / offset independence over the entry-point and kernel tables
   alloc_track().on = 0; alloc_track().arena = 0;  // back to the ordinary allocator
   BoxOpts o; o.cf = cfgs(th); if (!th) o.Ns = {2, 4, 8, 16, 32}; else o.Ns = {2, 4, 8, 16, 32, 64};
+  o.inplace = true;  // same-pointer calls too: what an in-place call leaves in the part of the output it does not compute must not depend on the previous contents
   auto runs = [&](ApiCase& c) {
     std::string id = "prefill-offset|" + c.id;
     if (!ctx.want(id)) return;
@@ -94,7 +95,7 @@ int main(int argc, char** argv) {
   };
   std::vector<ApiGroup> groups = api_groups(o);
   ctx.parallel(groups.size(), [&](uint64_t gi) { run_group(groups[gi], o, runs); }, "entry points");
-  BoxOpts ol = large_layer(th, o.cf);
+  BoxOpts ol = large_layer(th, o.cf); ol.inplace = true;
   std::vector<ApiGroup> lgroups = api_groups(ol);
   ctx.parallel(lgroups.size(), [&](uint64_t gi) { run_group(lgroups[gi], ol, runs); }, "entry points, large ring dimensions");
   std::vector<KernelGroup> kg = kernel_groups(th);
